@@ -68,6 +68,10 @@ def evo_op(r, sess, kind=None):
             op["site"] = r.choice([I(0), I(129), {"cls": "float", "v": 1}])
         elif which == "arm":
             op["arm"] = r.choice([I(2), I(-1)])
+        elif n > 1 and r.random() < 0.7:
+            vv = [r.randint(0, 3) for _ in range(n)]
+            vv[r.randrange(n - 1)] = wlmax + r.randint(1, 3)   # an oversized element that is not the last one
+            op["vols"] = {"k": "l", "x": vv}
         else:
             op["vols"] = {"k": "s", "x": wlmax + r.randint(1, 3)}
     elif r.random() < 0.3:
@@ -121,7 +125,7 @@ def evo_program(r, pid, nops, unit=Fraction(1), kinds=None):
 def targeted_programs():
     """The failing inputs of finding F-11 and their expressible neighbours."""
     progs = []
-    lws = lambda: [gen.mk_plate("plate", 8, 3, 0, 300, [100] * 24), gen.mk_trough("trough", 4, 2, 0, 5000, [1000, 1000])]
+    lws = lambda: [gen.mk_plate("plate", 8, 3, 0, 3000, [1500] * 24), gen.mk_trough("trough", 4, 2, 0, 5000, [2500, 2500])]
     W = lambda rows, col=0: {"k": "l", "x": [[rw, col] for rw in rows]}
     T = lambda ns: [["int", n] for n in ns]
     cases = [
@@ -136,6 +140,9 @@ def targeted_programs():
         ("gaps-perm", W([7, 2, 5]), T([8, 1, 4]), {"k": "l", "x": [3, 1, 2]}),
         ("all-eight", W(list(range(8)), 2), T(list(range(1, 9))), {"k": "l", "x": [1, 2, 3, 4, 5, 6, 7, 8]}),
         ("two-columns", {"k": "l", "x": [[0, 0], [1, 1]]}, T([1, 2]), {"k": "s", "x": 5}),
+        ("oversized-first", W([0, 1, 2]), T([1, 2, 3]), {"k": "l", "x": [951, 2, 3]}),
+        ("oversized-middle", W([0, 1, 2]), T([1, 2, 3]), {"k": "l", "x": [1, 1000, 3]}),
+        ("oversized-last", W([0, 1, 2]), T([1, 2, 3]), {"k": "l", "x": [1, 2, 951]}),
     ]
     for name, wells, tips, vols in cases:
         for opn in ("evo_aspirate", "evo_dispense"):
